@@ -755,9 +755,31 @@ def render(root=None):
     return "\n".join(out) + "\n"
 
 
-def generate(root=None):
+class gen_lock:
+    """Serialises writers of Gen/Rng.lean.  Every check process regenerates the file from *its* VERIF_REPO; a check of
+    C17 holds this lock from the regeneration to the end of its Lean build, so that a concurrent run against another
+    tree cannot swap the text under the build."""
+
+    def __enter__(self):
+        import fcntl
+        d = os.path.join(VERIF, ".cache")
+        os.makedirs(d, exist_ok=True)
+        self.f = open(os.path.join(d, "gen-rng.lock"), "w")
+        fcntl.flock(self.f, fcntl.LOCK_EX)
+        return self
+
+    def __exit__(self, *a):
+        import fcntl
+        fcntl.flock(self.f, fcntl.LOCK_UN)
+        self.f.close()
+
+
+def generate(root=None, lock=True):
     """Write Gen/Rng.lean (only when the text changes, so that lake does not rebuild needlessly).
     Returns (path, changed_relative_to_golden)."""
+    if lock:
+        with gen_lock():
+            return generate(root, lock=False)
     txt = render(root)
     os.makedirs(os.path.dirname(OUT), exist_ok=True)
     old = open(OUT).read() if os.path.exists(OUT) else None
